@@ -16,6 +16,19 @@ import pandas as pd
 import vlib
 from vlib import qlit, ostr, flit, fme
 
+MANIFEST = dict(
+    text="Machine-checked (Coq 8.16) factor theorems over R for the model GENERATED from converter_unit.py/converter_mode.py on every run: "
+         "every ordered pair of the 10 pressure, 27 loading (x19 material contexts) and 19 material representations, every real value and "
+         "every positive adsorbate/material constant (read at exactly the temperature the code passes) multiplies by exactly the SI factor of a "
+         "hand-written specification (Units/UnitsSpec.v); identity, there-and-back, composition and element-wise corollaries; the refusal clause "
+         "for ALL strings; temperature K<->degC. The translator is validated on every run by evaluating the generated model (QNum, vm_compute) "
+         "against the implementation on the whole label space, and the implementation is compared with the SPEC. Full proof for values/labels; "
+         "binary64 rounding is outside the theorem (validated to 1e-11).",
+    note="Trusted: Coq kernel; Reals axioms (sig_forall_dec, functional_extensionality_dep) as Print Assumptions reports; translator "
+         "tools/py2v_units.py; Adsorbate/Material reads are an oracle record of functions of temperature (CoolProp not modelled); theorems over "
+         "RNum, execution over QNum; numpy/pandas broadcasting validated by runs only.",
+    technique="Coq proof over model regenerated from source + exhaustive-label correspondence")
+
 HEADER = """From Coq Require Import QArith ZArith String List.
 From PG Require Import Lib.Num Lib.Py Lib.Show Gen.UnitsGen1 Units.AdsOracle Gen.UnitsGen2 Units.UnitsSpec Units.UnitsSpecQ.
 Import ListNotations. Open Scope string_scope.
